@@ -64,16 +64,16 @@ func envInt(name string, def int64) int64 {
 }
 
 type workerOut struct {
-	Runs       int                `json:"runs"`
-	Seeds      []int64            `json:"seeds"`
-	Stats      *sim.Stats         `json:"stats"`
-	Shapes     map[string]bool    `json:"shapes"`
-	NonTrivial int                `json:"nontrivial"`
-	Aborted    int                `json:"aborted"`
-	AbortNotes map[string]int     `json:"abort_notes"`
-	Violations []violationOut     `json:"violations"`
-	Samples    []sampleOut        `json:"samples"`
-	WallS      float64            `json:"wall_s"`
+	Runs       int             `json:"runs"`
+	Seeds      []int64         `json:"seeds"`
+	Stats      *sim.Stats      `json:"stats"`
+	Shapes     map[string]bool `json:"shapes"`
+	NonTrivial int             `json:"nontrivial"`
+	Aborted    int             `json:"aborted"`
+	AbortNotes map[string]int  `json:"abort_notes"`
+	Violations []violationOut  `json:"violations"`
+	Samples    []sampleOut     `json:"samples"`
+	WallS      float64         `json:"wall_s"`
 }
 
 type violationOut struct {
@@ -84,11 +84,11 @@ type violationOut struct {
 }
 
 type sampleOut struct {
-	Seed    int64        `json:"seed"`
-	Config  sim.Config   `json:"config"`
-	Intents []sim.Intent `json:"intents_first_40"`
-	TotalIntents int     `json:"total_intents"`
-	Blocks  int64        `json:"blocks"`
+	Seed         int64        `json:"seed"`
+	Config       sim.Config   `json:"config"`
+	Intents      []sim.Intent `json:"intents_first_40"`
+	TotalIntents int          `json:"total_intents"`
+	Blocks       int64        `json:"blocks"`
 }
 
 func cmdRun(args []string) int {
@@ -448,24 +448,24 @@ func writeEvidence(prop, tier string, seed int64, m *workerOut, wall float64, vi
 			"distinct_nontrivial": len(m.Shapes),
 			"rule": "one evaluation = one simulated run (seeded swarm configuration + adaptively generated intent trace executed against the real hub app and the external-chain models); " +
 				"a run is non-trivial when the property's oracle judged at least one positive case in it (probe 'nontrivial'); distinct = distinct hashes of (set of intent-kind trigrams, log2-bucketed event counters)",
-			"samples":               samplesOrEmpty(m.Samples),
-			"runs_per_hour":         float64(m.Runs) / wall * 3600,
-			"seeds_per_hour":        float64(m.Runs) / wall * 3600,
-			"simulated_seconds":     m.Stats.SimSeconds,
-			"hub_blocks":            m.Stats.Blocks,
-			"txs_delivered":         m.Stats.Txs,
-			"txs_failed":            m.Stats.TxsFailed,
-			"faults_fired":          m.Stats.Faults,
-			"oracle_evaluations":    m.Stats.Checks,
-			"probes":                m.Stats.Probes,
-			"counters":              m.Stats.Counters,
-			"nontrivial_runs":       m.NonTrivial,
-			"runs_aborted":          m.Aborted,
-			"abort_notes":           m.AbortNotes,
-			"known_findings_seen":   known,
-			"first_seeds":           firstSeeds(m.Seeds, 20),
-			"real_components":       []string{"app.NewMhub2App (baseapp, ante, auth, bank, staking, slashing, distribution, mint, gov, params, x/mhub2, x/oracle) on rootmulti/IAVL/cachekv over MemDB"},
-			"stub_components":       []string{"Tendermint (single ordered block stream)", "Hub2.sol (Go model transcribed from solidity, own ABI encoder)", "Minter chain + multisig (Go model)", "Rust orchestrator/relayer (simulated actors)", "minter-connector main loop (simulated actor)", "price oracle daemon (simulated actor)"},
+			"samples":             samplesOrEmpty(m.Samples),
+			"runs_per_hour":       float64(m.Runs) / wall * 3600,
+			"seeds_per_hour":      float64(m.Runs) / wall * 3600,
+			"simulated_seconds":   m.Stats.SimSeconds,
+			"hub_blocks":          m.Stats.Blocks,
+			"txs_delivered":       m.Stats.Txs,
+			"txs_failed":          m.Stats.TxsFailed,
+			"faults_fired":        m.Stats.Faults,
+			"oracle_evaluations":  m.Stats.Checks,
+			"probes":              m.Stats.Probes,
+			"counters":            m.Stats.Counters,
+			"nontrivial_runs":     m.NonTrivial,
+			"runs_aborted":        m.Aborted,
+			"abort_notes":         m.AbortNotes,
+			"known_findings_seen": known,
+			"first_seeds":         firstSeeds(m.Seeds, 20),
+			"real_components":     []string{"app.NewMhub2App (baseapp, ante, auth, bank, staking, slashing, distribution, mint, gov, params, x/mhub2, x/oracle) on rootmulti/IAVL/cachekv over MemDB"},
+			"stub_components":     []string{"Tendermint (single ordered block stream)", "Hub2.sol (Go model transcribed from solidity, own ABI encoder)", "Minter chain + multisig (Go model)", "Rust orchestrator/relayer (simulated actors)", "minter-connector main loop (simulated actor)", "price oracle daemon (simulated actor)"},
 		},
 		"assumptions": []string{"external custodians are executable models, not the deployed contracts", "consensus is a totally ordered block stream", "a clean batch is evidence, not proof"},
 	}
@@ -587,20 +587,20 @@ func checkC20(tier string, seed int64, workers int, budget float64) int {
 		"coverage": map[string]interface{}{
 			"evaluations":         tot.Restarts + tot.Commands,
 			"distinct_nontrivial": len(tot.Distinct),
-			"rule": "per seeded Minter block history, EVERY cursor the connector can persist (block boundaries) x EVERY nonce the hub could have acknowledged (none, each event nonce incl. mid-block because of 10-message chunking, one beyond the chain) is one restart of the real resync code; plus lost/empty/torn/garbage status files and Minter API errors; histories above 4000 pairs are strided. distinct = distinct (cursor position, acknowledged-nonce position / file fault) classes; every restart is non-trivial (it runs the real scan). Command payloads: fuzzed against the statement's well-formedness rule.",
-			"samples":                  tot.Samples,
-			"exhaustive":               false,
-			"histories":                tot.Histories,
-			"restarts":                 tot.Restarts,
-			"command_payloads":         tot.Commands,
-			"restart_classes":          tot.Distinct,
-			"faults_fired":             tot.Faults,
-			"probes":                   tot.Probes,
-			"histories_per_hour":       float64(tot.Histories) / wall * 3600,
-			"restarts_per_hour":        float64(tot.Restarts) / wall * 3600,
-			"real_components":          []string{"minter-connector/minter.GetLatestMinterBlockAndNonce", "minter-connector/context (LoadStatus, Commit, status file on disk)", "minter-connector/command.ValidateAndComplete", "minter-go-sdk http_client.Client (above the ClientService seam)"},
-			"stub_components":          []string{"Minter node HTTP API (api_service.ClientService stub serving the model's blocks)", "connector main loop (package main, not importable): its persisted cursors are enumerated as block-boundary cursors of the canonical numbering", "hub acknowledgement (an integer)"},
-			"clock":                    "retry sleeps run inside testing/synctest bubbles (fake clock)",
+			"rule":                "per seeded Minter block history, EVERY cursor the connector can persist (block boundaries) x EVERY nonce the hub could have acknowledged (none, each event nonce incl. mid-block because of 10-message chunking, one beyond the chain) is one restart of the real resync code; plus lost/empty/torn/garbage status files and Minter API errors; histories above 4000 pairs are strided. distinct = distinct (cursor position, acknowledged-nonce position / file fault) classes; every restart is non-trivial (it runs the real scan). Command payloads: fuzzed against the statement's well-formedness rule.",
+			"samples":             tot.Samples,
+			"exhaustive":          false,
+			"histories":           tot.Histories,
+			"restarts":            tot.Restarts,
+			"command_payloads":    tot.Commands,
+			"restart_classes":     tot.Distinct,
+			"faults_fired":        tot.Faults,
+			"probes":              tot.Probes,
+			"histories_per_hour":  float64(tot.Histories) / wall * 3600,
+			"restarts_per_hour":   float64(tot.Restarts) / wall * 3600,
+			"real_components":     []string{"minter-connector/minter.GetLatestMinterBlockAndNonce", "minter-connector/context (LoadStatus, Commit, status file on disk)", "minter-connector/command.ValidateAndComplete", "minter-go-sdk http_client.Client (above the ClientService seam)"},
+			"stub_components":     []string{"Minter node HTTP API (api_service.ClientService stub serving the model's blocks)", "connector main loop (package main, not importable): its persisted cursors are enumerated as block-boundary cursors of the canonical numbering", "hub acknowledgement (an integer)"},
+			"clock":               "retry sleeps run inside testing/synctest bubbles (fake clock)",
 		},
 		"assumptions": []string{"the main loop persists cursors only at block boundaries (read from cmd/mhub-minter-connector/main.go relayMinterEvents)", "bridge-event classification of the model follows the statement; edit-multisig payloads are decimal integers as strconv.Atoi reads them"},
 	}
